@@ -410,7 +410,7 @@ def ob_consumer(ctx, res):
         return
     res.ok(fn, "expect_closed_write(self, dest): waits for the writer, copies staged bytes per state with `?`, rejects a switched buffer")
     # len
-    fn = ctx.ast.fn(T, "len")
+    fn = ctx.ast.fn(T, "len", inline=True)
     w, err = _wait_then_poll(fn)
     if err:
         res.fail("len/wait", fn, err)
@@ -444,10 +444,23 @@ def ob_types(ctx, res):
         res.fail("types/state-clone", T, "BufferState derives Clone")
         return
     new = ctx.ast.fn(T, "new", impl="TempFileBuffer")
-    t = up(new.body)
-    if t.count("closed.clone()") + t.count("closed,") < 2 or "real_file.clone()" not in t:
-        res.fail("types/new", new, "new() must hand the same shared state (closed, real_file) to both halves")
-        return
+    def _shared(e):
+        e = strip(e)
+        if e.k == "call" and isinstance(e["func"], Node) and e["func"].k == "path" and e["func"]["path"].split("::")[-1] == "clone" and len(e["args"]) == 1:
+            e = strip(e["args"][0])            # Arc::clone(&x)
+        return up(e)
+    halves = {}
+    for n in walk_no_nested_fn(new.body):
+        if n.k == "struct" and n["path"].split("::")[-1] in ("TempFileBuffer", "TempFileBufferWriter"):
+            halves[n["path"].split("::")[-1]] = {x["name"]: _shared(x["e"]) for x in n["fields"]}
+    if len(halves) != 2:
+        res.undecided("types/new", new, "new() does not build both halves as struct literals: shared state not compared")
+    else:
+        for fld in ("closed", "real_file"):
+            a_, b_ = halves["TempFileBuffer"].get(fld), halves["TempFileBufferWriter"].get(fld)
+            if a_ is None or a_ != b_ or not re.fullmatch(r"[a-z_]\w*", a_):
+                res.fail("types/new", new, "new() must hand the same shared state (closed, real_file) to both halves; `%s` is `%s` in the buffer and `%s` in the writer" % (fld, a_, b_))
+                return
     res.ok(T, "TempFileBufferWriter / TempFileBuffer / BufferState are not Clone/Copy; new() shares one (mutex, condvar) and one mailbox between the halves")
 
 
